@@ -857,6 +857,8 @@ def s_exits(cx):
     """every (function, exit status) pair of every constructor, with the allocation succeeding and failing"""
     L = []
     r = cx.rng
+    # whatever a constructor handed out is used at once: every byte of the struct is observed
+    USE0 = ["keygen h=0 coin=0 size=32", "store h=0", "birthday h=0", "feature h=0 mask=7", "isenc h=0"]
     for rep in range(cx.n(3, 30)):
         for li in ([0, 3, 8] if cx.quick else range(cx.nl)):
             sec, b, f = cx.seed(enc=0, feat=0)
@@ -868,20 +870,34 @@ def s_exits(cx):
             idx = P.indices(sec, b, 0, 0)
             idx[3] ^= 1
             cases.append(cx.langs.phrase(li, idx))
+            # sixteen words that two registered lists share: the MULT_LANG exit
+            names = [l["name_en"] for l in cx.langs.langs]
+            if "Chinese (Simplified)" in names and "Chinese (Traditional)" in names:
+                za = cx.langs.langs[names.index("Chinese (Simplified)")]["words"]
+                zb = set(cx.langs.langs[names.index("Chinese (Traditional)")]["words"])
+                shared = [w for w in za if w in zb]
+                if len(shared) >= 16:
+                    cases.append(b" ".join(r.sample(shared, 16)))
             for ok in (1, 0):
                 for s in cases:
-                    L += ["reset", "decode coin=0 str=%s ok=%d" % (hx(s), ok)]
-                    L += ["reset", "decodex coin=0 lang=%d str=%s ok=%d" % (li, hx(s), ok)]
+                    L += ["reset", "decode coin=0 str=%s ok=%d" % (hx(s), ok)] + USE0
+                    L += ["reset", "decodex coin=0 lang=%d str=%s ok=%d" % (li, hx(s), ok)] + USE0
                 img = bytearray(P.store(sec, b, 0))
                 imgs = [bytes(img)]
                 for pos, v in ((0, 0x51), (30, img[30] ^ 1), (9, img[9] | 0x20), (29, 0), (28, img[28] | 0x80)):
                     i2 = bytearray(img)
                     i2[pos] = v
                     imgs.append(bytes(i2))
+                # valid images whose feature bits are reserved / not enabled: the UNSUPPORTED exit of load
+                imgs += [P.store(sec, b, 8), P.store(sec, b, 1), P.store(sec, b, 2 | 16), P.store(sec, b, 15)]
                 for im in imgs:
-                    L += ["reset", "load buf=%s ok=%d" % (hx(im), ok)]
+                    L += ["reset", "load buf=%s ok=%d" % (hx(im), ok)] + USE0
+                # the same exit after a feature was enabled and disabled again
+                L += ["reset", "enable mask=1", "create feat=1 rand=%s clock=%d ok=1" % (hx(sec), P.EPOCH), "store h=0", "free h=0",
+                      "enable mask=0", "load buf=%s ok=%d" % (hx(P.store(sec, 0, 1)), ok), "enable mask=1",
+                      "load buf=%s ok=%d" % (hx(P.store(sec, 0, 1)), ok)]
                 for fe in (0, 1, 8):
-                    L += ["reset", "create feat=%d rand=%s clock=%d ok=%d" % (fe, hx(sec), P.EPOCH, ok)]
+                    L += ["reset", "create feat=%d rand=%s clock=%d ok=%d" % (fe, hx(sec), P.EPOCH, ok)] + USE0
                 L += ["reset", "enable mask=1", "create feat=1 rand=%s clock=0 ok=%d" % (hx(sec), ok), "freenull"]
     return L
 
